@@ -331,6 +331,21 @@ def drive(circuit, net, ctx, rng, exhaustive=True):
             d = shared
         else:
             d = dict(zip(net.inputs, a))
+        if rng.random() < 0.15:
+            # an evaluation request the library must refuse, caught by the caller, who then goes on evaluating
+            try:
+                kind = rng.choice(['unknown_output', 'illegal_state', 'short_input'])
+                if kind == 'unknown_output':
+                    circuit.evaluate_circuit(dict(d), outputs=list(net.outputs[:1]) + ['__no_such_gate__'])
+                elif kind == 'illegal_state' and net.inputs:
+                    bad = dict(d)
+                    bad[net.inputs[0]] = None
+                    circuit.evaluate_circuit(bad)
+                elif net.inputs:
+                    circuit.evaluate(list(a)[:-1])
+                ctx.count('refusable_evaluation_accepted')
+            except Exception:
+                ctx.count('refused_evaluation_then_continue')
         r = circuit.evaluate(list(a))
         results[a] = r
         if no:
